@@ -68,6 +68,9 @@ def universe(rng, sysr):
                         t.append([-2, b""])
                     elif q < 0.3:
                         t.append([3, b"peer"])
+                    elif q < 0.5:
+                        # an aliased dependency (KnownAs): a valued attribute on the client's own requirement
+                        t.append([8, rng.choice([b"al", b"al2", dn + b"-alias"])])
                 elif sysr == 1:
                     if q < 0.1:
                         t.append([-4, b""])
